@@ -62,7 +62,7 @@ func TestVerif(t *testing.T) {
 	var hs []rh.History
 	add := func(o *rh.Outcome) {
 		rh.Report(c, o)
-		rh.CountLookups(c, o.H)
+		rh.CountLookups(c, o)
 		hs = append(hs, o.H)
 	}
 	if c.Replay != "" {
@@ -70,7 +70,7 @@ func TestVerif(t *testing.T) {
 		if err := c.ReadReplay(&h); err != nil {
 			t.Fatal(err)
 		}
-		o := rh.RunFixed(t, h.Name, h.Profile, h.Ops, mon, 1)
+		o := rh.RunFixed(t, h.Name, h.Profile, h.Pools, h.Ops, mon, 8)
 		add(o)
 		for _, f := range o.Fails {
 			fmt.Printf("replay: %s: %s\n", f.Sig, f.Detail)
@@ -79,7 +79,7 @@ func TestVerif(t *testing.T) {
 		names := []string{"host-bits-tie", "v4mapped-beats-longer", "v4mapped-same-bucket", "host-bits-withdraw"}
 		w := witnesses()
 		for _, n := range names {
-			add(rh.RunFixed(t, "witness:"+n, "cidr", w[n], mon, 64))
+			add(rh.RunFixed(t, "witness:"+n, "cidr", rh.Pools{}, append(w[n], rh.Op{Code: rh.OpLookupAll}), mon, 64))
 		}
 		n := c.N(24, 600)
 		for i := 0; i < n; i++ {
